@@ -148,7 +148,7 @@ public:
 
 private:
   /***/
-  QUILL_NODISCARD constexpr uint16_t _calc_file_name_pos() const noexcept
+  QUILL_NODISCARD constexpr size_t _calc_file_name_pos() const noexcept
   {
     char const* source_location = _source_location;
     char const* file = source_location;
@@ -160,15 +160,14 @@ private:
         file = source_location;
       }
     }
-    return static_cast<uint16_t>(file - _source_location);
+    return static_cast<size_t>(file - _source_location);
   }
 
   /***/
-  QUILL_NODISCARD constexpr uint16_t _calc_colon_separator_pos() const noexcept
+  QUILL_NODISCARD constexpr size_t _calc_colon_separator_pos() const noexcept
   {
     std::string_view const source_loc{_source_location};
-    auto const separator_index = source_loc.rfind(':');
-    return static_cast<uint16_t>(separator_index);
+    return source_loc.rfind(':');
   }
 
   /***/
@@ -198,8 +197,8 @@ private:
   char const* _caller_function;
   char const* _message_format;
   char const* _tags;
-  uint16_t _colon_separator_pos;
-  uint16_t _file_name_pos;
+  size_t _colon_separator_pos;
+  size_t _file_name_pos;
   LogLevel _log_level;
   Event _event;
   uint8_t _format_flags{0};
